@@ -16,7 +16,12 @@ class K2(Component):
         return 0
 
 
+class K1d(K1):
+    """a component type DERIVED from K1: a different type (a class that holds a K1d does not thereby hold a K1)"""
+
+
 KT = [K1, K2]
+KT3 = [K1, K2, K1d]
 
 
 def _hierarchy():
@@ -179,7 +184,7 @@ def class_component_step(ft: int, fr: int, fo: int, ti: int, inst_has: bool) -> 
 def class_component_history(c0: int, t0: int, c1: int, t1: int, c2: int, t2: int) -> bool:
     """
     pre: 0 <= c0 < 6 and 0 <= c1 < 6 and 0 <= c2 < 6
-    pre: 0 <= t0 < 2 and 0 <= t1 < 2 and 0 <= t2 < 2
+    pre: 0 <= t0 < (3 if hx.P.get('derived') else 2) and 0 <= t1 < (3 if hx.P.get('derived') else 2) and 0 <= t2 < 2
     post: _
     """
     # from freshly created classes, through the public API only (the class-level stores are whatever the metaclass set up)
@@ -205,7 +210,7 @@ def class_component_history(c0: int, t0: int, c1: int, t1: int, c2: int, t2: int
     for k, op in enumerate(ops):
         ci = cs[k]
         cls = hx.pick(classes, ci)
-        T = hx.pick(KT, ts[k])
+        T = hx.pick(KT3 if hx.P.get('derived') else KT, ts[k])
         mine = hx.pick(ref, ci)
         if op == 'a':
             comp = T(cls, m)
@@ -233,7 +238,13 @@ def class_component_history(c0: int, t0: int, c1: int, t1: int, c2: int, t2: int
                 except ComponentNotFoundError:
                     pass
         for i, c in enumerate(classes):
-            for U in KT:
+            # templates of several types: true iff the class itself holds EVERY listed type, in any order
+            both = (K1 in ref[i]) and (K2 in ref[i])
+            if c.has_class_component(K1, K2) != both or c.has_class_component(K2, K1) != both or \
+                    c.has_class_component(K1) != (K1 in ref[i]) or c.has_class_component(K2) != (K2 in ref[i]):
+                return hx.end(hx.fail("has_class_component with a template", through=c.__name__, step=k,
+                                      holds=[U.__name__ for U in ref[i]]))
+            for U in (KT3 if hx.P.get('derived') else KT):
                 if (U in c) != (U in ref[i]) or c[U] is not ref[i].get(U):
                     return hx.end(hx.fail("class component visibility differs from the per-class reference model", step=k,
                                           through=c.__name__, type=U.__name__, after="%s %s on %s" % (op, T.__name__, cls.__name__)))
@@ -370,7 +381,7 @@ def obligations(tier):
           timeout=900, encoded=enc),
         X("class_component_history", class_component_history,
           parts=[{"ops": o} for o in (("aa", "ad", "a") if tier == "quick" else ("aa", "ad", "aaa", "aad", "ada", "add"))] +
-          [{"ops": o, "twins": tw} for o in ("aa", "ad") for tw in ("factory", "shared_namespace")],
+          [{"ops": o, "twins": tw} for o in ("aa", "ad") for tw in ("factory", "shared_namespace")] + [{"ops": "aa", "derived": True}],
           labels=("attached", "duplicate_rejected", "detached", "absent_rejected"),
           labels_for=lambda p: {"a": ("attached",), "aa": ("attached", "duplicate_rejected"), "ad": ("detached", "absent_rejected")}.get(p["ops"], ("attached",)),
           timeout=900, encoded=enc, bounds={"history": "<= %d attach/detach from fresh classes" % (2 if tier == "quick" else 3)}),
